@@ -432,7 +432,8 @@ func convTypeToTarget(source interface{}, target reflect.Type) (interface{}, err
 			rv := reflect.ValueOf(source)
 			// (not for a Go integer headed for a string: that conversion is "the character with
 			// this code", which turned []int{65, 66} into ["A", "B"] for a []string parameter)
-			intToString := target.Kind() == reflect.String && rv.IsValid() && rv.Kind() >= reflect.Int && rv.Kind() <= reflect.Uintptr
+			// (nor for a slice of integers: []int32{72, 105} arrived as "Hi")
+			intToString := target.Kind() == reflect.String && rv.IsValid() && rv.Kind() != reflect.String
 			if rv.IsValid() && rv.CanConvert(target) && !intToString {
 				return rv.Convert(target).Interface(), nil
 			}
